@@ -348,6 +348,9 @@ func verifC15Finish(c *verifkit.Case, st *verifC15StoreState) {
 	chain2, cyc, hard := model.Shape()
 	if chain2 || cyc {
 		c.NonTrivial()
+		if c.HasLabel("mode=store") {
+			c.Label("non-trivial(mode=store)")
+		}
 	}
 	if chain2 {
 		c.Label("shape:ref-chain>=2")
